@@ -65,6 +65,10 @@ func genDiff(job *Job, prop string, seed, idx uint64) *RunOutcome {
 func runDiff(rf *RunFile) *RunOutcome {
 	out := &RunOutcome{RF: rf, Stats: NewStats(), NOps: len(rf.Ops)}
 	var logs [][]string
+	diffBackends := diffBackends
+	if rf.Cfg["backends"] != "" {
+		diffBackends = strings.Split(rf.Cfg["backends"], "+")
+	}
 	for _, name := range diffBackends {
 		dir, err := scratchDir()
 		if err != nil {
@@ -90,6 +94,10 @@ func runDiff(rf *RunFile) *RunOutcome {
 			if !e.Step(i, &op) {
 				break
 			}
+		}
+		if e.V == nil && !e.closed {
+			e.cur = nil
+			e.Audit() // stored key sets must agree with the canonical rebuild on every backend
 		}
 		e.Finish()
 		be.Destroy()
@@ -346,3 +354,24 @@ func runCursor(rf *RunFile) *RunOutcome {
 }
 
 var _ = val.Wrap
+
+// diffbig: a size-sweep history (thousands of documents, whole-collection
+// operations) on bbolt and on badger opened through the shipped default
+// badgerstore.Open(dir): capacity limits are backend properties, but the shipped
+// defaults must carry the same workloads.
+func init() {
+	engines["diffbig"] = func(job *Job, prop string, seed, idx uint64) *RunOutcome {
+		j := *job
+		j.Backends = []string{"mem-sw-livecur"}
+		j.Params = map[string]string{"maxN": "5000", "reads": "1", "genonly": "1"}
+		o := genBigBulk(&j, prop, seed^0xd1ffb16, idx)
+		if o.Trouble != nil || o.V != nil {
+			return o
+		}
+		rf := o.RF
+		rf.Engine = "diff"
+		rf.Backend = "bbolt+badger-disk-default"
+		rf.Cfg["backends"] = "bbolt+badger-disk-default"
+		return runDiff(rf)
+	}
+}
